@@ -72,5 +72,5 @@ int main()
   printf("DISTINCT %ld\n", n);
   printf("SAMPLE b b b e 3 b b b b f\n");
   report(o1);
-  return o1.failed ? 1 : 0;
+  fflush(stdout); _exit(o1.failed ? 1 : 0);   // skip the teardown of several hundred thousand removed loggers (minutes)
 }
